@@ -95,6 +95,7 @@ import Sds.Proofs.SerShapes
 import Sds.Proofs.GenEqLoad
 import Sds.Proofs.GenEqLoad2
 import Sds.Proofs.GenEqLoad3
+import Sds.Proofs.GenEqLoad4
 
 namespace Sds.C06
 open Sds Outcome
@@ -815,5 +816,25 @@ theorem rl_and_wm_core_loaders_as_translated_from_source (m : Mode) (es : Elems)
     ((∀ w ∈ es, w.toNat < 2 ^ 32) → Generated.gen_WMCore_load m es = wmCoreC.load es) :=
   ⟨GenEq.rl_load_eq_of_noUnderflow m es, GenEq.rl_load_eq_wrapping es, GenEq.wm_core_load_eq m es,
    GenEq.wm_core_load_eq_small m es⟩
+
+/-- `WaveletMatrix::load` with NOTHING left to the model: translated over the translated `WMCore::load` (which is translated
+over the translated `BitVector::load`, …) — the whole loader stack of the wavelet matrix, as the source has it on this
+run, is the `load` of the model codec on every stream whose header arithmetic stays inside `usize` -/
+theorem wavelet_matrix_loader_stack_as_translated_from_source (m : Mode) (es : Elems) :
+    (GenEq.WmFullOk es → Generated.gen_WaveletMatrix_load_full m es = wmC.load es) ∧
+    ((∀ w ∈ es, w.toNat < 2 ^ 32) → Generated.gen_WaveletMatrix_load_full m es = wmC.load es) :=
+  ⟨GenEq.wm_load_full_eq m es, GenEq.wm_load_full_eq_small m es⟩
+
+/-- `BitVector::load` with nothing left to the model either: the generic `impl<V: Serialize> Serialize for Option<V> { fn load }`
+translated at the two instances `BitVector::load` uses (the length prefix is only tested against 0 — by the code and by the
+model's `optionC` alike), and `BitVector::load` translated over them.  Equal to the model codec on every stream whose
+header arithmetic stays inside `usize`, which now includes the arithmetic INSIDE the select supports
+(`GenEq.BvSelOk`; `bv_load_full_ne_select` shows that `BvOk` alone does not suffice: observation O18). -/
+theorem bit_vector_loader_stack_as_translated_from_source (m : Mode) (es : Elems) :
+    Generated.gen_Option_RankSupport_load m es = (optionC rankSupC).load es ∧
+    (GenEq.OptSelOk es → Generated.gen_Option_SelectSupport_load m es = (optionC selSupC).load es) ∧
+    (GenEq.BvOk es → GenEq.BvSelOk es → Generated.gen_BitVector_load_full m es = bitVectorC.load es) ∧
+    ((∀ w ∈ es, w.toNat < 2 ^ 32) → Generated.gen_BitVector_load_full m es = bitVectorC.load es) :=
+  ⟨GenEq.opt_rank_load_eq m es, GenEq.opt_sel_load_eq m es, GenEq.bv_load_full_eq m es, GenEq.bv_load_full_eq_small m es⟩
 
 end Sds.C06
